@@ -509,7 +509,8 @@ func newWorld(r *core.Run, minTRCs int) *world {
 			next = sets[2+len(next)-1] // a short-lived root0 cannot be carried into a longer TRC
 		}
 		sens := !sameRoots(next, prev.roots) || r.Chance(fmt.Sprintf("trc%d.sensitive", s), 1, 2)
-		delay := []int{0, 1, 24, 72}[r.Choice(fmt.Sprintf("trc%d.delay", s), 4)]
+		// negative delay: the update is announced (and stored) before its validity period starts
+		delay := []int{0, 1, 24, 72, -24, -72, -7}[r.Choice(fmt.Sprintf("trc%d.delay", s), 7)]
 		w.addTRC(window{start, start + length}, grace, next, sens, max(start+delay, prev.arrival))
 	}
 	for _, t := range w.trcs {
@@ -603,6 +604,11 @@ func (w *world) latestKnown(now time.Time) (latest, pred *trcEnt) {
 // while that TRC is valid, or against the predecessor during the latest TRC's grace period.
 func (w *world) active(c *chainEnt, now time.Time) (ok bool, how string) {
 	latest, pred := w.latestKnown(now)
+	if latest != nil && now.Before(h(latest.win.nb)) {
+		// announced ahead of time: not valid yet, so nothing is trusted through it (nor, by the
+		// statement, through its predecessor: the grace period has not begun)
+		return false, "latest-not-yet-valid"
+	}
 	if latest == nil || !latest.win.contains(now) {
 		return false, "no-valid-latest"
 	}
